@@ -170,6 +170,11 @@ def r4(ctx):
                 chain = extra
                 ok = chain[-1] in ORDER_FREE_CONSUMERS and all(m in ("map", "filter", "copied", "cloned") or m == chain[-1] for m in chain)
                 sorted_after = chain[-1] == "collect" and _sorted_before_use(c, fn, node)
+                # collected into a keyed / ordered-by-key container: the visiting order leaves no trace in the result
+                rty = (c.ty(node) or "")
+                if chain[-1] == "collect" and rty.startswith(("std::collections::HashMap<", "std::collections::HashSet<", "std::collections::BTreeMap<", "std::collections::BTreeSet<")) \
+                        and all(m in ("map", "filter", "copied", "cloned", "collect") for m in chain):
+                    sorted_after = True
                 ctx.check("R05.4", inst, ok or sorted_after, "hash-order-dependent-chain:" + ".".join(chain), where,
                           "HashMap iterator consumed by order-insensitive `%s`" % ".".join(chain),
                           "%s: the result of `%s` over a HashMap depends on its iteration order" % (p, ".".join(chain)))
